@@ -7,7 +7,7 @@ import numpy as np
 
 from vf import env, synth
 
-FS_KINDS = ["local", "file", "memory", "vfs", "lvfs"]
+FS_KINDS = ["local", "file", "memory", "vfs", "lvfs", "zip"]
 _counter = itertools.count()
 
 
@@ -35,7 +35,7 @@ def unique_root(kind, tag="p", rng=None, p_odd=0.3):
     if rng is not None and rng.random() < p_odd:
         pool = ODD if kind in ("local", "file", "memory") else ODD_NO_GLOB
         name = name + rng.choice(pool) + rng.choice(pool) + "x"
-    if kind in ("local", "file"):
+    if kind in ("local", "file", "zip"):
         return os.path.join(env.scratch(), "products", name)
     return f"/{name}"
 
